@@ -2,6 +2,7 @@ import Driver.Util
 import Capnp.Model.Read
 import Capnp.Spec.Encoding
 import Capnp.Spec.Value
+import Capnp.Spec.Canon
 /-! ops of domain `read`: canonical traversal of a message through the model's accessors -/
 namespace Driver.Read
 open Capnp.Prelude Capnp.Gen Capnp.Model.Read
@@ -159,6 +160,22 @@ def run : List String → String
         if Capnp.Spec.Value.eq 200 va (Capnp.Spec.Value.mapCap (fun j => (j + shift) % 8) vb) then "true" else "false"
       | _, _ => "invalid"
     | _, _, _ => "bad-op"
+  | ["canon", segs] =>           -- the spec's canonical bytes of the decoded root struct
+    match parseSegs segs with
+    | some sg =>
+      match Capnp.Spec.Value.decodeRoot sg with
+      | none => "invalid"
+      | some v =>
+        let v := match v with | .struct _ _ => v | _ => .null     -- Canonicalize takes a Struct
+        match Capnp.Spec.Canon.canon v with
+        | none => "err"
+        | some bytes =>
+          -- the canonical form must itself decode to an equal value
+          let back := Capnp.Spec.Value.decodeRoot #[ByteArray.mk (bytes.map UInt8.ofNat).toArray]
+          match back with
+          | some w => if Capnp.Spec.Value.eq 200 v w then "ok " ++ toHex (bytes.map UInt8.ofNat) else "spec-bug-neq"
+          | none => "spec-bug-undecodable"
+    | none => "bad-op"
   | ["conc", _, _, _, _] => "ok"
   | "nopanic" :: _ => "done"          -- C01: the consumer returns a value or an error
   | ["copycycle", _, _] => "ok"        -- C02.path_bounds: at most D dereferences along any path     -- Props.C02.budget_conc: granted + remaining ≤ T on every interleaving
